@@ -79,6 +79,7 @@ EffectW(c, s, w) ==
       [] w.k = "Canon"     -> [s EXCEPT !.canon = Put(@, w.h, w.id)]
       [] w.k = "DelCanon"  -> [s EXCEPT !.canon = Drop(@, {w.h})]
       [] w.k = "Diff"      -> [s EXCEPT !.diff = Put(@, w.h, "")]
+      [] w.k = "DelDiff"   -> [s EXCEPT !.diff = Drop(@, {w.h})]
       [] w.k = "Index"     -> [s EXCEPT !.nidx = @ + 1]
       [] w.k = "PCopy"     -> [s EXCEPT !.pv = Over(s.iv, s.pv)]
       [] w.k = "PfxP"      -> [s EXCEPT !.pp = TRUE]
